@@ -40,6 +40,7 @@ class Contract:
     loops = {}
     canaries = {}
     assumptions = ()         # free-text assumptions copied to evidence
+    generic_replay = True    # refutations are replayed by native call + concrete-mode contract check
 
     # -- to override -----------------------------------------------------------------
     def setup(self, c):
@@ -86,6 +87,17 @@ class Contract:
         return self.qualname + (f"[{self.name}]" if self.name else "")
 
 
+def spec_canary(wrong_spec):
+    """canary from a deliberately wrong specification function(c, **pre)"""
+    def chk(self, c, pre, post, outcome):
+        try:
+            want = ("return", wrong_spec(self, c, **pre))
+        except PyRaise as e:
+            want = ("raise", e.etype)
+        self.compare_outcome(c, outcome, want)
+    return chk
+
+
 class VerifyResult:
     def __init__(self, contract):
         self.contract = contract
@@ -102,14 +114,18 @@ class VerifyResult:
 
 def make_interp(repo, contract):
     visible = {}
+    prefer = getattr(contract, "use", {}) or {}
     for q, lst in REGISTRY.items():
-        for k in lst:
-            if not k.callable_modular:
-                continue
-            if contract.use_contracts is not None and q not in contract.use_contracts:
-                continue
-            visible[q] = k
-            break
+        cands = [k for k in lst if k.callable_modular]
+        if contract.use_contracts is not None and q not in contract.use_contracts:
+            continue
+        if q in prefer:
+            cands = [k for k in cands if k.name == prefer[q]] or cands
+        else:
+            # default: the contract whose body is verified, if any
+            cands = [k for k in cands if getattr(k, "verify_body", True)] or cands
+        if cands:
+            visible[q] = cands[0]
     I = Interp(repo, contracts=visible, models=dict(MODELS))
     I.inline = {contract.qualname} | set(contract.inline)
     for q in I.inline:
